@@ -52,6 +52,15 @@ type model struct {
 	groups   []string // all pointer-embedded groups
 	desc     []string
 	colSet   map[string]bool // the column names, as spelled
+	// shadowed: fields whose column is also the column of ONE field on a strictly shorter path (Go's
+	// own shadowing of a promoted field by an outer one, or a column: tag / embeddedPrefix that lands
+	// on the same name). They are not leaves: the harness never sets them and they must stay zero.
+	shadowed []*leaf
+	// ambiguous: two fields on paths of the same (shortest) length share a column; which of them owns
+	// it is not fixed by the statement, such a model is never used
+	ambiguous bool
+	// goNames: how many fields (leaves and shadowed ones, at any depth) carry a given Go field name
+	goNames map[string]int
 }
 
 func parseTag(tag string) map[string]string {
@@ -175,7 +184,37 @@ func walk(t reflect.Type, prefix string, path []string, groups []string, out *[]
 
 func newModel(t reflect.Type, table string, useTable bool) *model {
 	m := &model{typ: t, table: table, useTable: useTable, colSet: map[string]bool{}}
-	walk(t, "", nil, nil, &m.leaves)
+	var found []*leaf
+	walk(t, "", nil, nil, &found)
+	byCol := map[string][]*leaf{}
+	m.goNames = map[string]int{}
+	for _, l := range found {
+		byCol[l.col] = append(byCol[l.col], l)
+		m.goNames[l.path[len(l.path)-1]]++
+	}
+	for _, l := range found {
+		grp := byCol[l.col]
+		shortest, n := len(l.path), 0
+		for _, o := range grp {
+			if len(o.path) < shortest {
+				shortest = len(o.path)
+			}
+		}
+		for _, o := range grp {
+			if len(o.path) == shortest {
+				n++
+			}
+		}
+		switch {
+		case n > 1:
+			m.ambiguous = true
+			m.leaves = append(m.leaves, l)
+		case len(l.path) == shortest:
+			m.leaves = append(m.leaves, l)
+		default:
+			m.shadowed = append(m.shadowed, l)
+		}
+	}
 	for i, l := range m.leaves {
 		l.ord = i
 		m.colSet[l.col] = true
@@ -214,6 +253,9 @@ func newModel(t reflect.Type, table string, useTable bool) *model {
 		panic("c03 harness: model without payload column or primary key")
 	}
 	m.desc = describeType(t, "")
+	for _, l := range m.shadowed {
+		m.desc = append(m.desc, fmt.Sprintf("// %s shares column %q with a field on a shorter path: left zero, expected to stay zero", l.name(), l.col))
+	}
 	return m
 }
 
@@ -231,7 +273,11 @@ func describeType(t reflect.Type, indent string) []string {
 			ft, ptr = ft.Elem(), "*"
 		}
 		if isEmbeddable(f.Type) && ft.Name() == "" {
-			out = append(out, indent+f.Name+" "+ptr+"struct {")
+			anon := ""
+			if f.Anonymous {
+				anon = "/* embedded anonymously, type name */ "
+			}
+			out = append(out, indent+anon+f.Name+" "+ptr+"struct {")
 			out = append(out, describeType(ft, indent+"    ")...)
 			out = append(out, indent+"}"+tag)
 			continue
@@ -327,14 +373,23 @@ func (g *gen) leafField(nc nameCol, k kind, inPtrEmb bool) reflect.StructField {
 	feat := func(f string) { g.feats[f] = true }
 	g.kinds[k.name] = true
 	if r.Chance(1, 4) {
-		if r.Chance(1, 4) {
+		switch x := r.Intn(16); {
+		case x < 4:
 			tags = append(tags, "column:"+nc.goName+"_MiX")
 			feat("column:mixedcase")
-		} else if r.Chance(1, 4) {
+		case x < 7:
 			// a column whose name is an SQL keyword (two fields drawing the same word: the model is generated again)
 			tags = append(tags, "column:"+core.Pick(r, reservedCols))
 			feat("column:keyword")
-		} else {
+		case x < 11:
+			// a name that contains the separator gorm itself uses for the columns of joined relations
+			tags = append(tags, "column:"+dunder(r, nc))
+			feat("column:double-underscore")
+		case x < 13:
+			// characters that need quoting
+			tags = append(tags, "column:"+core.Pick(r, []string{nc.col + "-x", "x " + nc.col, nc.col + "#", "1" + nc.col}))
+			feat("column:quoted-chars")
+		default:
 			tags = append(tags, "column:c_"+nc.col)
 			feat("column")
 		}
@@ -377,6 +432,59 @@ func (g *gen) leafField(nc nameCol, k kind, inPtrEmb bool) reflect.StructField {
 	return sf
 }
 
+// dunder spells a column name with a double underscore in it: a legacy separator, leading, trailing,
+// twice, and exactly like gorm's alias of a joined relation's column (<GoName>__<column>).
+func dunder(r *core.Rand, nc nameCol) string {
+	switch r.Intn(6) {
+	case 0:
+		return "legacy__" + nc.col
+	case 1:
+		return nc.col + "__"
+	case 2:
+		return "__" + nc.col
+	case 3:
+		return nc.goName + "__" + nc.col
+	case 4:
+		return "a__b__" + nc.col
+	}
+	return nc.col + "__" + nc.goName
+}
+
+// embedTag draws how a struct field is embedded: by tag or anonymously (Go embedding, with no tag, with
+// an embeddedPrefix tag only, or with both tags), and with which prefix. bare: no prefix is allowed.
+func (g *gen) embedTag(name string, bare bool, fallbackPrefix string) (tag string, anon bool) {
+	r := g.r
+	prefix := strings.ToLower(name) + "_"
+	switch x := r.Intn(12); {
+	case x < 2:
+		prefix = ""
+		if !bare {
+			prefix = fallbackPrefix
+		}
+		g.feats["embedded:noprefix"] = true
+	case x < 4:
+		prefix = core.Pick(r, []string{strings.ToLower(name) + "__", name + "__", "__" + strings.ToLower(name) + "_", "p__q__" + strings.ToLower(name)})
+		g.feats["embedded:prefix-double-underscore"] = true
+	}
+	anon = r.Chance(2, 5)
+	switch {
+	case !anon && prefix == "":
+		tag = "embedded"
+	case !anon:
+		tag = "embedded;embeddedPrefix:" + prefix
+	case prefix == "":
+		tag = ""
+		g.feats["embedded:anonymous"] = true
+	case r.Bool():
+		tag = "embeddedPrefix:" + prefix
+		g.feats["embedded:anonymous"] = true
+	default:
+		tag = "embedded;embeddedPrefix:" + prefix
+		g.feats["embedded:anonymous+tag"] = true
+	}
+	return tag, anon
+}
+
 // embeddedType builds an unnamed struct type of 1..3 leaves (and possibly one nested embedded struct).
 func (g *gen) embeddedType(depth int, inPtr bool) reflect.Type {
 	r := g.r
@@ -397,6 +505,12 @@ func (g *gen) embeddedType(depth int, inPtr bool) reflect.Type {
 		ptr := r.Chance(1, 3)
 		inner := g.embeddedType(depth+1, inPtr || ptr)
 		f := reflect.StructField{Name: "Sub", Type: inner, Tag: `gorm:"embedded;embeddedPrefix:sub_"`}
+		if r.Chance(1, 3) {
+			// Go embedding inside the embedded struct
+			f.Anonymous = true
+			f.Tag = core.Pick(r, []reflect.StructTag{`gorm:"embeddedPrefix:sub_"`, `gorm:"embeddedPrefix:sub__"`, `gorm:"embedded;embeddedPrefix:sub_"`})
+			g.feats["embedded:nested-anonymous"] = true
+		}
 		if ptr {
 			f.Type = reflect.PtrTo(inner)
 			g.feats["embedded:nested-ptr"] = true
@@ -455,7 +569,7 @@ func (g *gen) aliasColumn(all []reflect.StructField) {
 		tag := parseTag(f.Tag.Get("gorm"))
 		_, emb := tag["EMBEDDED"]
 		_, pk := tag["PRIMARYKEY"]
-		if (emb && isEmbeddable(f.Type)) || pk || f.Name == "ID" || f.Name == "Payload" {
+		if ((emb || f.Anonymous) && isEmbeddable(f.Type)) || pk || f.Name == "ID" || f.Name == "Payload" {
 			continue
 		}
 		top[f.Name] = i
@@ -504,6 +618,84 @@ func (g *gen) aliasColumn(all []reflect.StructField) {
 	g.feats["column:go-name-of-other-field"] = true
 }
 
+// withoutColumn returns the field without a column: tag.
+func withoutColumn(sf reflect.StructField) reflect.StructField {
+	var parts []string
+	for _, p := range strings.Split(sf.Tag.Get("gorm"), ";") {
+		if p == "" || strings.HasPrefix(strings.ToLower(p), "column:") {
+			continue
+		}
+		parts = append(parts, p)
+	}
+	sf.Tag = ""
+	if len(parts) > 0 {
+		sf.Tag = reflect.StructTag(`gorm:"` + strings.Join(parts, ";") + `"`)
+	}
+	return sf
+}
+
+// shadowColumn adds one top-level field whose column is the column of a field INSIDE an embedded
+// struct (anonymous or tagged, value or pointer, possibly nested): either by carrying the same Go name
+// (what Go itself calls shadowing, when the struct is embedded anonymously) or by a column: tag that
+// spells the inner field's column. The new field is declared directly before or directly after the
+// embedded struct. The outer field is on the shorter path: it is an ordinary leaf of the model, the
+// inner field becomes model.shadowed (never set, must stay zero).
+func (g *gen) shadowColumn(all []reflect.StructField, spare []nameCol) []reflect.StructField {
+	r := g.r
+	var leaves []*leaf
+	walk(reflect.StructOf(all), "", nil, nil, &leaves)
+	cols := map[string]int{}
+	for _, l := range leaves {
+		cols[strings.ToLower(l.col)]++
+	}
+	top := map[string]int{}
+	for i, f := range all {
+		top[f.Name] = i
+	}
+	var cands []*leaf
+	for _, l := range leaves {
+		if len(l.path) >= 2 && cols[strings.ToLower(l.col)] == 1 {
+			cands = append(cands, l)
+		}
+	}
+	if len(cands) == 0 || len(spare) == 0 {
+		return all
+	}
+	in := core.Pick(r, cands)
+	last := in.path[len(in.path)-1]
+	f := g.leafField(spare[0], g.pickKind(true), false)
+	_, taken := top[last]
+	if in.col == snake(last) && !taken && r.Chance(2, 3) {
+		f = withoutColumn(f)
+		f.Name = last
+		g.feats["shadow:by-go-name"] = true
+	} else {
+		f = withColumn(f, in.col)
+		g.feats["shadow:by-column-tag"] = true
+	}
+	ei := top[in.path[0]]
+	how := "tagged"
+	if all[ei].Anonymous {
+		how = "anonymous"
+		if _, ok := parseTag(all[ei].Tag.Get("gorm"))["EMBEDDED"]; ok {
+			how = "anonymous+tag"
+		}
+	}
+	if len(in.path) > 2 {
+		how += ":nested"
+	}
+	at := ei
+	if r.Bool() {
+		at = ei + 1
+		g.feats["shadow:"+how+":outer-after-embedded"] = true
+	} else {
+		g.feats["shadow:"+how+":outer-before-embedded"] = true
+	}
+	out := append([]reflect.StructField(nil), all[:at]...)
+	out = append(out, f)
+	return append(out, all[at:]...)
+}
+
 // genModel generates one model type.
 func genModel(r *core.Rand, n int) (*model, []string, []string) {
 	g := &gen{r: r, feats: map[string]bool{}, kinds: map[string]bool{}}
@@ -543,22 +735,17 @@ func genModel(r *core.Rand, n int) (*model, []string, []string) {
 			nemb++
 			ptr := r.Chance(2, 5)
 			et := g.embeddedType(1, ptr)
-			tag := "embedded;embeddedPrefix:" + strings.ToLower(nc.goName) + "_"
-			if r.Chance(1, 6) {
-				tag = "embedded"
-				// without a prefix two embedded structs could collide on a column: only the first goes bare
-				if nemb > 1 {
-					tag = "embedded;embeddedPrefix:e2_"
-				}
-				g.feats["embedded:noprefix"] = true
-			}
+			// without a prefix two embedded structs could collide on a column: only the first goes bare
+			tag, anon := g.embedTag(nc.goName, nemb == 1, "e2_")
 			if ptr {
 				et = reflect.PtrTo(et)
 				g.feats["embedded:ptr"] = true
 			} else {
 				g.feats["embedded:value"] = true
 			}
-			rest = append(rest, sfield(nc.goName, et, tag))
+			ef := sfield(nc.goName, et, tag)
+			ef.Anonymous = anon
+			rest = append(rest, ef)
 			continue
 		}
 		k := g.pickKind(true)
@@ -582,8 +769,20 @@ func genModel(r *core.Rand, n int) (*model, []string, []string) {
 		all = sh
 		g.feats["order:shuffled"] = true
 	}
+	if r.Chance(1, 2) {
+		var spare []nameCol
+		for _, j := range names[nf:] {
+			if nc := namePool[j]; nc.goName != "CreatedAt" && nc.goName != "UpdatedAt" {
+				spare = append(spare, nc)
+			}
+		}
+		all = g.shadowColumn(all, spare)
+	}
 	// column names must be unique (an un-prefixed embedded struct may collide with a top-level name)
 	m := newModel(reflect.StructOf(all), table, true)
+	if m.ambiguous {
+		return genModel(r, n)
+	}
 	seen := map[string]bool{}
 	for _, l := range m.leaves {
 		c := strings.ToLower(l.col)
